@@ -331,7 +331,9 @@ def h3(ctx):
         detail = ''
         if ok:
             args = e.call_args()
-            ok = bool(args) and member_path(args[0]) == 'other' and \
+            # the first argument is the operator's own (first) parameter
+            p0 = f.params[0][0] if f.params else None
+            ok = bool(args) and p0 is not None and member_path(args[0]) == p0 and \
                 (e.call_base() is None or e.call_base().kind == 'CXXThisExpr')
             if ok and strict is not None:
                 ok = len(args) >= 2 and const_eval(args[1]) is strict
@@ -344,9 +346,10 @@ def h3(ctx):
     # IsSuffix(other, strict) == other.IsPrefix(*this, strict)
     f = prog.one('PyTreeSpec::IsSuffix')
     e = _single_return(f)
-    ok = e is not None and e.kind == 'CXXMemberCallExpr' and e.callee_name() == 'IsPrefix' and \
-        member_path(e.call_base()) == 'other' and len(e.call_args()) == 2 and \
-        member_path(e.call_args()[0]) == 'this' and member_path(e.call_args()[1]) == 'strict'
+    ps = [p_[0] for p_ in f.params]
+    ok = e is not None and len(ps) == 2 and e.kind == 'CXXMemberCallExpr' and e.callee_name() == 'IsPrefix' and \
+        member_path(e.call_base()) == ps[0] and len(e.call_args()) == 2 and \
+        member_path(e.call_args()[0]) == 'this' and member_path(e.call_args()[1]) == ps[1]
     ctx.check('PyTreeSpec::IsSuffix', ok, 'IsSuffix(other, strict) is other.IsPrefix(*this, strict)',
               'IsSuffix is not the converse of IsPrefix: %s' % (e.text(5) if e else '?'), f.loc)
     tab = binding_table(prog)
